@@ -50,3 +50,10 @@ pub proof fn lemma_push_front_counts(fs: Seq<Frame>, f: Frame)
 {
     assert((seq![f] + fs).drop_first() =~= fs);
 }
+// Option::is_some_and(o, f): false for None, f(x) for Some(x) (std documented behaviour).  ASSUMED.
+pub assume_specification<T, F: FnOnce(T) -> bool> [Option::<T>::is_some_and] (o: Option<T>, f: F) -> (r: bool)
+    requires o is Some ==> f.requires((o->0,)),
+    ensures o is None ==> !r, o is Some ==> f.ensures((o->0,), r);
+// VecDeque::front: the first element, if any (std documented behaviour).  ASSUMED.
+pub assume_specification<T, A: std::alloc::Allocator> [std::collections::VecDeque::<T, A>::front] (v: &std::collections::VecDeque<T, A>) -> (r: Option<&T>)
+    ensures v@.len() == 0 ==> r is None, v@.len() > 0 ==> r == Some(&v@[0]);
